@@ -348,6 +348,15 @@ def run(pid, tier, seed, replay=None):
                 # a model-level counterexample is not a verdict (R1): the scenario family below replays it
                 ctx.extra["model_counterexample"] = {"violated": res.violated, "trace": res.counterexample[:1500]}
                 print("NOTE: as-implemented model violates %s; the replayed scenarios decide." % res.violated)
+        # witnesses of the recorded findings are replayed in every run: a finding whose witness no longer
+        # fails prints no KNOWN-FINDING line (R1)
+        wit = [{"id": -1 - i, "c": f["witness_cfg"], "o": {}, "pred": None} for i, f in enumerate(ctx.known) if f.get("witness_cfg")]
+        if wit:
+            wrecs = [pipeline.run_one(w) for w in wit]
+            before = dict(ctx.known_seen)
+            _judge_records(ctx, work, spec, wrecs, {w["id"]: w for w in wit})
+            ctx.extra["known_finding_witnesses"] = {f["id"]: ("reproduces" if ctx.known_seen.get(f["id"], 0) > before.get(f["id"], 0) else "no longer reproduces")
+                                                    for f in ctx.known if f.get("witness_cfg")}
         # 3. GENERATE
         scs = _scenarios(ctx, work, spec, tier, rng)
         if len(scs) < 20:
